@@ -416,3 +416,209 @@ Section PatSim.
       rewrite (Htk F ltac:(cbn [length] in HF; lia)). reflexivity.
   Qed.
 End PatSim.
+
+(* ---------- the control path does not depend on the algebra: acceptance transfers to the tree algebra ---------- *)
+Fixpoint strip (g : grammar) (t : ptree) : tree :=
+  match t with
+  | PLeaf a _ _ _ => Leaf a
+  | PErr _ => Leaf (err_idx g)
+  | PNode r ch => Node r (map (strip g) ch)
+  end.
+
+Lemma accept_any_algebra (V C : Type) g tbl opts buf cap lexer
+      (term_f : nat -> nat -> nat -> spoint -> V) (err_f : spoint -> V) (rule_f : nat -> C -> list V -> C * V) c0 fuel v :
+  fst (fst (run V C g tbl opts buf cap lexer term_f err_f rule_f fuel c0)) = Accept v ->
+  exists t, fst (fst (run tree unit g tbl opts buf cap lexer tf (ef g) rlf fuel tt)) = Accept t.
+Proof.
+  intros Hacc.
+  pose proof (run_same_path V C g tbl opts buf cap lexer term_f err_f rule_f c0 fuel) as Hp.
+  destruct (run ptree (list (nat * list ptree)) g tbl opts buf cap lexer tree_term_f tree_err_f tree_rule_f fuel [])
+    as [[rT sT] outT] eqn:ET.
+  destruct (run V C g tbl opts buf cap lexer term_f err_f rule_f fuel c0) as [[rA sA] outA].
+  cbn [fst] in Hacc. subst rA. destruct Hp as (Hs & _ & _).
+  destruct rT as [pt| | | |]; try discriminate Hs.
+  exists (strip g pt).
+  pose proof (run_gh_hom ptree (list (nat * list ptree)) tree unit g tbl opts buf cap lexer
+                tree_term_f tree_err_f tree_rule_f tf (ef g) rlf (strip g) (fun _ => tt)
+                (fun _ _ _ _ => eq_refl) (fun _ => eq_refl) (fun _ _ _ => eq_refl) fuel (init []) [] []) as Hh.
+  unfold run in ET |- *.
+  rewrite (run_gh_run _ _ _ _ _ _ _ _ _ _ _ fuel (init []) [] []) in ET.
+  rewrite (run_gh_run _ _ _ _ _ _ _ _ _ _ _ fuel (init tt) [] []).
+  change (map_st (strip g) (fun _ : list (nat * list ptree) => tt) (init [])) with (@init tree unit tt) in Hh.
+  cbn [map] in Hh. rewrite Hh.
+  destruct (run_gh ptree (list (nat * list ptree)) g tbl opts buf cap lexer tree_term_f tree_err_f tree_rule_f fuel (init []) [] [])
+    as [[[r s'] out'] vis']. inversion ET; subst. reflexivity.
+Qed.
+
+(* ---------- the facts about the generated pattern table the transfer needs ---------- *)
+Lemma regex_plain_table : plain_tableb regex_g regex_tb = true.
+Proof. vm_compute. reflexivity. Qed.
+
+Lemma regex_err_col : err_col_empty regex_g regex_tb.
+Proof. exact (no_error_symbol_cell _ _ regex_no_error_symbol). Qed.
+
+Lemma regex_lexer_sp v p v' q rest : snd (regex_lexer v p rest) = snd (regex_lexer v' q rest).
+Proof. rewrite !regex_lexer_snd. reflexivity. Qed.
+
+Lemma regex_lexer_rng v p rest t len : snd (regex_lexer v p rest) = Some (t, len) ->
+  0 < len /\ len <= length rest /\ t < eof_idx regex_g.
+Proof. intros H. apply regex_lexer_range in H. rewrite regex_eof_idx. exact H. Qed.
+
+Definition tok_term (tk : nat * nat * nat) : nat := fst (fst tk).
+
+(* (P4) for any fuel and any accepted value: the whole pattern was scanned (the token stream ends with <eof> at the end
+   of the pattern: no unscannable byte anywhere) and its term sequence is derivable in the pattern grammar *)
+Theorem pattern_accept_wellformed pat fuel v :
+  pattern_run regex_g regex_tb pat fuel = Accept v ->
+  exists toks,
+    (forall F, length pat < F -> tokenize F regex_opts regex_lexer pat 0 = (toks, TokEof (length pat))) /\
+    derives regex_g (map tok_term toks) /\
+    toks_from pat regex_lexer 0 (map tok_term toks).
+Proof.
+  intros Hacc. unfold pattern_run in Hacc.
+  destruct (accept_any_algebra _ _ _ _ _ _ _ _ _ _ _ _ _ _ Hacc) as (t & Ht).
+  unfold run in Ht.
+  destruct (psim_sound regex_g regex_tb pat regex_lexer regex_lexer_sp regex_lexer_rng
+              (plain_table_ok _ _ regex_plain_table) regex_err_col fuel (init tt) [] t
+              (init_pnormal pat regex_lexer) Ht) as (ws & n & Hws & Hm).
+  cbn [init ps_it ps_cursors ps_values] in Hws, Hm.
+  destruct (toks_from_terms regex_g pat regex_lexer regex_lexer_sp regex_lexer_rng 0 ws Hws (Nat.le_0_l _))
+    as (Hok & Hle & toks & Hmap & Htk).
+  exists toks. unfold tok_term. rewrite Hmap. split; [|split; [|exact Hws]].
+  - intros F HF. apply Htk. lia.
+  - exists t. apply (lr_sound regex_g regex_sts regex_tb ws t regex_validate_sound regex_no_error_symbol Hok).
+    eapply mrun_accepts. exact Hm.
+Qed.
+
+Theorem parse_pattern_wellformed pat r :
+  parse_pattern pat = Some r ->
+  exists toks,
+    (forall F, length pat < F -> tokenize F regex_opts regex_lexer pat 0 = (toks, TokEof (length pat))) /\
+    derives regex_g (map tok_term toks).
+Proof.
+  rewrite parse_pattern_eq, parse_pattern_with_run. intros H.
+  destruct (pattern_run regex_g regex_tb pat (10 * length pat + 20)) as [v| | | |] eqn:E; try discriminate.
+  destruct (pattern_accept_wellformed pat _ v E) as (toks & H1 & H2 & _). eauto.
+Qed.
+
+(* in the form with the grammar/table as delivered by regex_grammar_table *)
+Corollary parse_pattern_wellformed' g tb pat r :
+  regex_grammar_table = Some (g, tb) -> parse_pattern_with g tb pat = Some r ->
+  exists toks,
+    (forall F, length pat < F -> tokenize F regex_opts regex_lexer pat 0 = (toks, TokEof (length pat))) /\
+    derives g (map tok_term toks).
+Proof.
+  rewrite regex_grammar_table_eq. intros H. inversion H; subst g tb. rewrite <- parse_pattern_eq.
+  apply parse_pattern_wellformed.
+Qed.
+
+(* ---------- corollaries: malformed patterns are rejected ---------- *)
+Lemma nth_skipn_add {A} (l : list A) pos j d : nth j (skipn pos l) d = nth (pos + j) l d.
+Proof.
+  revert l. induction pos as [|pos IH]; intros l; [reflexivity|].
+  destruct l as [|x l]; [destruct j; reflexivity|]. cbn [skipn Nat.add nth]. apply IH.
+Qed.
+
+Lemma toks_from_lex c rest t len :
+  lexv regex_lexer (c :: rest) = Some (t, len) -> lex_at (c :: rest) 0 = Tok t len.
+Proof. unfold lexv. apply regex_lexer_inv. Qed.
+
+Lemma toks_from_printable pat pos ws : toks_from pat regex_lexer pos ws ->
+  forall k, pos <= k < length pat -> is_printable (nth k pat 0) = true.
+Proof.
+  induction 1 as [pos Hsk|pos c rest t len ws Hsk Hl Hr IH]; intros k Hk.
+  - apply skipn_nil_ge in Hsk. lia.
+  - apply toks_from_lex in Hl.
+    destruct (Nat.lt_ge_cases k (pos + len)) as [Hlt|Hge]; [|apply IH; lia].
+    pose proof (lexeme_printable (c :: rest) 0 t len Hl (k - pos) ltac:(lia)) as Hp.
+    unfold pr in Hp. rewrite <- Hsk, nth_skipn_add in Hp. replace (pos + (k - pos)) with k in Hp by lia. exact Hp.
+Qed.
+
+(* a raw non-printable byte anywhere (also >= 128, inside a set, after a backslash) makes the pattern unacceptable *)
+Theorem nonprintable_rejected pat c : In c pat -> is_printable c = false -> parse_pattern pat = None.
+Proof.
+  intros Hin Hnp. destruct (parse_pattern pat) as [r|] eqn:E; [|reflexivity]. exfalso.
+  rewrite parse_pattern_eq, parse_pattern_with_run in E.
+  destruct (pattern_run regex_g regex_tb pat (10 * length pat + 20)) as [v| | | |] eqn:Er; try discriminate.
+  destruct (pattern_accept_wellformed pat _ v Er) as (toks & _ & _ & Htf).
+  destruct (In_nth _ _ 0 Hin) as (k & Hk & Hnth).
+  pose proof (toks_from_printable pat 0 _ Htf k ltac:(lia)) as Hp. rewrite Hnth in Hp. congruence.
+Qed.
+
+Theorem empty_pattern_rejected : parse_pattern [] = None.
+Proof. vm_compute. reflexivity. Qed.
+
+(* an opening bracket at a token boundary (nothing but one-byte tokens before it) with no closing bracket after it *)
+Lemma toks_from_unterminated pre rest pos ws :
+  (forall c, In c pre -> c <> 92 /\ c <> 91) -> ~ In 93 rest ->
+  toks_from (pre ++ 91 :: rest) regex_lexer pos ws -> pos <= length pre -> False.
+Proof.
+  intros Hpre Hrest. set (pat := pre ++ 91 :: rest).
+  assert (Hlen : length pat = length pre + S (length rest)) by (unfold pat; rewrite app_length; reflexivity).
+  induction 1 as [pos Hsk|pos c rest' t len ws Hsk Hl Hr IH]; intros Hpos.
+  - apply skipn_nil_ge in Hsk. fold pat in Hsk. lia.
+  - apply toks_from_lex in Hl. fold pat in Hsk.
+    pose proof (lex_at_in_range _ _ _ _ Hl) as (Hl1 & Hl2 & _). cbn [Nat.add] in Hl2.
+    assert (Hlr : length (c :: rest') = length pat - pos) by (rewrite <- Hsk; apply skipn_length).
+    assert (Hc : pr (c :: rest') 0 = nth pos pat 0).
+    { unfold pr. rewrite <- Hsk, nth_skipn_add. f_equal. lia. }
+    destruct (Nat.eq_dec pos (length pre)) as [Heq|Hne].
+    + assert (H91 : pr (c :: rest') 0 = 91).
+      { rewrite Hc. unfold pat. rewrite app_nth2 by lia. rewrite Heq, Nat.sub_diag. reflexivity. }
+      destruct (lexeme_set_closed _ _ _ _ Hl H91) as (_ & H2 & H93). cbn [Nat.add] in H93.
+      unfold pr in H93. rewrite <- Hsk, nth_skipn_add in H93. unfold pat in H93.
+      rewrite app_nth2 in H93 by lia.
+      replace (pos + (len - 1) - length pre) with (S (len - 2)) in H93 by lia. cbn [nth] in H93.
+      apply Hrest. rewrite <- H93. apply nth_In. lia.
+    + assert (Hin : In (nth pos pat 0) pre).
+      { unfold pat. rewrite app_nth1 by lia. apply nth_In. lia. }
+      destruct (Hpre _ Hin) as [H92 H91]. rewrite <- Hc in H92, H91.
+      pose proof (lexeme_single _ _ _ _ Hl H92 H91) as H1. subst len. apply IH. lia.
+Qed.
+
+Theorem unterminated_set_rejected pre rest :
+  (forall c, In c pre -> c <> 92 /\ c <> 91) -> ~ In 93 rest -> parse_pattern (pre ++ 91 :: rest) = None.
+Proof.
+  intros Hpre Hrest. destruct (parse_pattern (pre ++ 91 :: rest)) as [r|] eqn:E; [|reflexivity]. exfalso.
+  rewrite parse_pattern_eq, parse_pattern_with_run in E.
+  destruct (pattern_run regex_g regex_tb (pre ++ 91 :: rest) _) as [v| | | |] eqn:Er; try discriminate.
+  destruct (pattern_accept_wellformed _ _ v Er) as (toks & _ & _ & Htf).
+  exact (toks_from_unterminated pre rest 0 _ Hpre Hrest Htf (Nat.le_0_l _)).
+Qed.
+
+Corollary unterminated_set_rejected0 rest : ~ In 93 rest -> parse_pattern (91 :: rest) = None.
+Proof. intros H. apply (unterminated_set_rejected [] rest); [intros c []|exact H]. Qed.
+
+(* non-vacuity: the rejected samples fall under the corollaries, the neighbouring well-formed ones are accepted *)
+Definition accepted (pat : list nat) : bool := match parse_pattern pat with Some _ => true | None => false end.
+
+Example nonprintable_samples :
+  map accepted [[97; 200]; [200]; [97; 0]; [97; 127]; [91; 97; 200; 93]; [91; 97; 45; 200; 93]; [92; 200]; [92; 120; 200];
+                [91; 92; 200; 93]; [91; 92; 120; 52; 200; 93]]
+  = [false; false; false; false; false; false; false; false; false; false] /\
+  map accepted [[97]; [91; 97; 98; 93]; [91; 97; 45; 122; 93]; [92; 46]; [92; 120; 52; 49]; [91; 92; 93; 93]; [91; 92; 120; 52; 49; 93]]
+  = [true; true; true; true; true; true; true].
+Proof. vm_compute. split; reflexivity. Qed.
+
+Example unterminated_samples :
+  map accepted [[91]; [91; 97]; [91; 94]; [91; 94; 97; 45; 98]; [97; 91; 98]; [97; 42; 91; 98; 45]; [91; 97; 92; 93]]
+  = [false; false; false; false; false; false; false] /\
+  map accepted [[91; 93]; [91; 97; 93]; [91; 94; 93]; [91; 94; 97; 45; 98; 93]; [97; 91; 98; 93]; [97; 42; 91; 98; 45; 99; 93]]
+  = [true; true; true; true; true; true].
+Proof. vm_compute. split; reflexivity. Qed.
+
+(* the token stream of an accepted pattern, computed: a ( b | [c-e] ) * *)
+Example wellformed_sample :
+  tokenize 20 regex_opts regex_lexer [97; 40; 98; 124; 91; 99; 45; 101; 93; 41; 42] 0 =
+  ([(1, 0, 1); (6, 1, 1); (1, 2, 1); (5, 3, 1); (1, 4, 5); (7, 9, 1); (2, 10, 1)], TokEof 11) /\
+  accepted [97; 40; 98; 124; 91; 99; 45; 101; 93; 41; 42] = true.
+Proof. vm_compute. split; reflexivity. Qed.
+
+Print Assumptions regex_lexer_ok_on.
+Print Assumptions pattern_parse_no_crash.
+Print Assumptions pattern_parse_no_throw.
+Print Assumptions pattern_accept_wellformed.
+Print Assumptions parse_pattern_wellformed.
+Print Assumptions nonprintable_rejected.
+Print Assumptions empty_pattern_rejected.
+Print Assumptions unterminated_set_rejected.
